@@ -1182,6 +1182,17 @@ func (sk *SpaceKeeper) ConfigureByPath(paths []string, sizes []int, execPlot, ex
 		return wsiList, nil
 	}
 
+	// check every share against free disk space before anything is created
+	for i := range absDirs {
+		_, filled, finished := fillSpaceListByPathSize(absDirs[i], nil, sk.getIndexedWorkSpaces(), 0, sizes[i])
+		if finished {
+			continue
+		}
+		if err := checkOSDiskSizeByPath(absDirs[i], sizes[i]-filled); err != nil {
+			return failureReturn(err)
+		}
+	}
+
 	for i := range absDirs {
 		var currentSize, targetSize = 0, sizes[i]
 		var finished bool
